@@ -63,11 +63,20 @@ impl RecoveryThread {
         let thread = spawn(move || loop {
             for panicking_thread in &rx {
                 let mut threads = threads.lock().unwrap();
+                #[cfg(humphrey_verif)]
+                crate::verif::point("Rec_Recv", panicking_thread as i64, 0);
+                #[cfg(humphrey_verif)]
+                let had_handle = threads[panicking_thread].os_thread.is_some();
 
                 // End the OS thread that panicked.
                 if let Some(thread) = threads[panicking_thread].os_thread.take() {
                     thread.join().ok();
                 }
+
+                #[cfg(humphrey_verif)]
+                crate::verif::point("Rec_Joined", panicking_thread as i64, had_handle as i64);
+                #[cfg(humphrey_verif)]
+                crate::verif::point("Rec_Respawn", panicking_thread as i64, 0);
 
                 // Start a new thread with the same ID.
                 let restarted_thread = Thread::new(
@@ -97,6 +106,8 @@ impl RecoveryThread {
 impl Drop for PanicMarker {
     fn drop(&mut self) {
         if panicking() {
+            #[cfg(humphrey_verif)]
+            crate::verif::point("Marker_Send", self.0 as i64, 0);
             self.1.send(self.0).ok();
         }
     }
